@@ -1,7 +1,9 @@
 #!/usr/bin/env python3
 """Checker self-test: applies each mutant patch (zv/mutants/<Cnn>/*.patch, and
 seeded/<id>/patch.diff) to a scratch copy of /repo and expects the named property
-check to report a VIOLATION that is not a load failure. Never touches /repo.
+check to report a VIOLATION that is not a load failure. Behaviour-preserving variants
+(zv/equiv/<Cnn>/*.patch) are applied the same way and the check must stay silent on them.
+Never touches /repo.
 
 usage: selftest.py [Cnn ...] [--seeded] [--jobs N] [--tier quick|thorough]
 """
@@ -11,7 +13,7 @@ V = os.path.dirname(os.path.dirname(os.path.abspath(__file__)))
 REPO = os.environ.get("ZV_REPO_SRC", "/repo")
 
 
-def run_one(prop, patch, tier, expect_key=None):
+def run_one(prop, patch, tier, expect_key=None, silent=False):
     tmp = tempfile.mkdtemp(prefix="zvself.")
     try:
         repo = os.path.join(tmp, "repo")
@@ -27,6 +29,12 @@ def run_one(prop, patch, tier, expect_key=None):
         txt = out.stdout + out.stderr
         if "meta load" in txt:
             return (prop, patch, "MUTANT-DOES-NOT-TYPECHECK", txt[-1500:])
+        if silent:
+            # behaviour-preserving variant: the check must stay quiet
+            if out.returncode == 0 and "VIOLATION" not in txt:
+                return (prop, patch, "SILENT", "")
+            viol = [l.strip() for l in txt.splitlines() if l.strip().startswith("violated:")]
+            return (prop, patch, "FALSE-ALARM", "\n".join(viol[:6]) or txt[-600:])
         if out.returncode == 1 and "VIOLATION property=" + prop in txt:
             viol = [l.strip() for l in txt.splitlines() if l.strip().startswith("violated:")]
             if expect_key and not any(expect_key in l for l in viol):
@@ -64,6 +72,13 @@ def main():
         for patch in sorted(glob.glob(os.path.join(d, "*.patch"))):
             if not only_seeded:
                 tasks.append((prop, patch, None))
+    for d in sorted(glob.glob(os.path.join(V, "zv", "equiv", "C*"))):
+        prop = os.path.basename(d)
+        if props and prop not in props:
+            continue
+        for patch in sorted(glob.glob(os.path.join(d, "*.patch"))):
+            if not only_seeded:
+                tasks.append((prop, patch, "SILENT"))
     if seeded:
         for d in sorted(glob.glob(os.path.join(V, "seeded", "*"))):
             mf = os.path.join(d, "meta.json")
@@ -76,11 +91,11 @@ def main():
                 tasks.append((prop, os.path.join(d, "patch.diff"), None))
     rc = 0
     with cf.ThreadPoolExecutor(max_workers=jobs) as ex:
-        futs = [ex.submit(run_one, p, patch, tier, k) for p, patch, k in tasks]
+        futs = [ex.submit(run_one, p, patch, tier, None, k == "SILENT") for p, patch, k in tasks]
         for f in futs:
             prop, patch, status, detail = f.result()
             print(f"{status:28s} {prop} {os.path.relpath(patch, V)}")
-            if status != "KILLED":
+            if status not in ("KILLED", "SILENT"):
                 rc = 1
                 print("    " + detail.replace("\n", "\n    "))
             elif os.environ.get("ZV_SELFTEST_VERBOSE"):
